@@ -14,7 +14,7 @@ LEVEL = "fault_enumeration"
 RULE = ("configuration = TCP with 1-3 resolved addresses (mixed families) / UNIX socket / TLS-wrapped TCP x connect_timeout, "
         "timeout in {None, 0.5, 3} x no_delay x socket_keepalive x client stack (Client, PooledClient max 1, single-server "
         "HashClient). Systematic sweep: a fault-free dry run of a cold call and a warm call lists every socket event "
-        "(getaddrinfo, socket(), setsockopt, wrap_socket, settimeout, connect, sendall, recv, close); one case per event x "
+        "(getaddrinfo, socket(), setsockopt, wrap_socket - failing with ssl.SSLError, OSError or the ValueError ssl raises for unusable arguments -, settimeout, connect, sendall, recv, close); one case per event x "
         "applicable error kind, and every pair of events of the cold call, each followed by two fault-free calls and "
         "close(). Random: histories of 1-6 calls with up to two faults each. Oracle (fake network lifecycle log): never "
         "more than one socket open at any event; after a call that raised, no socket is open; after a call that returned "
@@ -79,7 +79,8 @@ def check(case):
                 raise Violation(["unexpected-failure", kind, type(out[1]).__name__], "failed without any fault: %s" % where(i, call, out))
             if opened:
                 raise Violation(["socket-open-after-failed-call", kind], "socket(s) %r still open after %s" % ([s.id for s in opened], where(i, call, out)))
-            if not isinstance(out[1], (OSError, MemcacheUnexpectedCloseError)):
+            own = isinstance(out[1], ValueError) and any(f["fault"].get("what") == "valueerror" for f in fired)     # the TLS layer's own ValueError, passed on
+            if not isinstance(out[1], (OSError, MemcacheUnexpectedCloseError)) and not own:
                 raise Violation(["wrong-error", kind, type(out[1]).__name__], "socket-level fault surfaced as %r: %s" % (out[1], where(i, call, out)))
         else:
             if len(opened) > 1:
